@@ -170,6 +170,7 @@ class C20(PropertyCheck):
         "autoarray/structures/triangles/abstract.py:AbstractTriangles._up_sample_triangle",
         "autoarray/structures/triangles/abstract.py:AbstractTriangles._neighborhood_triangles",
         "autoarray/structures/triangles/abstract.py:AbstractTriangles.for_limits_and_scale",
+        "autoarray/structures/triangles/abstract.py:AbstractTriangles.for_grid",
         "autoarray/structures/triangles/array.py:ArrayTriangles.triangles",
         "autoarray/structures/triangles/array.py:ArrayTriangles.containing_indices",
         "autoarray/structures/triangles/array.py:ArrayTriangles.for_indexes",
@@ -255,6 +256,8 @@ class C20(PropertyCheck):
             fl = rng.random() < 0.5
             ch = self._random_chain(rng, k)
             c = self._coord_case("rand_coord", coords, side, xo, yo, fl, ch)
+            c["coord_dtype"] = ["int64", "int32", "float64", "int64"][i % 4]
+            c["int_scalars"] = i % 2 == 0
             if i % 3 == 0:
                 c["shape"] = self._shape_for(rng, [coord_triangle(x, y, side, xo, yo, fl) for x, y in coords])
                 c["ops"] = [] if rng.random() < 0.6 else ["up"]
@@ -297,12 +300,46 @@ class C20(PropertyCheck):
             ch = self._random_chain(rng, nt)
             c = {"tag": "rand_arr", "kind": "arr", "vertices": [[q(a), q(b)] for a, b in verts],
                  "indices": idx, "ops": ch}
+            if i % 4 == 1:
+                verts = [[F(round(a)), F(round(b))] for a, b in verts]
+                c["vertices"] = [[q(a), q(b)] for a, b in verts]
+                c["vert_form"] = "int64"
+                c["int_scalars"] = True
+                c["tag"] = "rand_arr_int64"
+            elif i % 4 == 2:
+                c["vert_form"] = "float32"   # dyadic, |v| <= 16 with 3 fractional bits: exact in float32
             if i % 3 == 0:
                 ts = [tuple((F(verts[j][0]), F(verts[j][1])) for j in tr) for tr in idx]
                 c["shape"] = self._shape_for(rng, ts)
                 c["ops"] = []
                 c["tag"] = "rand_arr_shape_" + c["shape"]["kind"]
             yield c
+        # 4b. round-3 hardening: every index-subset form x both representations (seed independent),
+        #     integer-dtype / float32 vertices and coordinates, int scalars, empty and for_grid sets
+        coords6 = [[0, 0], [1, 0], [1, 1], [-2, 1], [3, -2], [0, -1]]
+        verts6 = [["0", "0"], ["4", "0"], ["0", "4"], ["4", "4"], ["-2", "1"], ["1", "-3"]]
+        idx6 = [[0, 1, 2], [1, 3, 2], [4, 0, 2], [5, 1, 0], [4, 5, 3]]
+        sels = {"int64": [4, 1, 1], "int32": [0, 3], "list": [2, 2, 0], "bool": [1, 2], "bool_list": [0, 1, 4],
+                "empty": []}
+        for form, sel in sels.items():
+            for tail in ([], ["up"], ["nb"]):
+                op = {"idx": sel, "form": form}
+                for k, vform in enumerate(["float64", "int64", "float32"]):
+                    yield {"tag": f"idxform_arr_{form}", "kind": "arr", "vertices": verts6, "indices": idx6,
+                           "ops": [op] + tail, "vert_form": vform, "index_dtype": "int32" if k == 1 else "int64"}
+                for k, cdt in enumerate(["int64", "int32", "float64"]):
+                    c = self._coord_case(f"idxform_coord_{form}", coords6, F(2), F(1), F(-3), k == 2, [op] + tail)
+                    c["coord_dtype"] = cdt
+                    c["int_scalars"] = k != 1
+                    yield c
+        for ch in ([], ["up"], ["nb"], [{"idx": [], "form": "list"}]):
+            yield self._coord_case("empty_coord_set", [], F(1), F(0), F(0), False, ch)
+            yield {"tag": "empty_arr_set", "kind": "arr", "vertices": verts6, "indices": [], "ops": ch}
+        # (a 1x1 grid / zero-extent limits box yields NO triangle and a float `indices` array whose
+        #  `.triangles` raises IndexError: not a triangle set, outside the quantifier — see design note)
+        for (h_, w_), ps_ in (((3, 3), "1"), ((2, 4), "1/2"), ((2, 2), "2")):
+            for ch in (["up"], ["nb"], [{"idx": [0], "form": "bool_list"}]):
+                yield {"tag": "arr_for_grid", "kind": "arr", "grid": {"shape": [h_, w_], "ps": ps_}, "ops": ch}
         # 5. vertex-array sets from limits and scale
         n = 25 if quick else 200
         for i in range(n):
@@ -313,27 +350,38 @@ class C20(PropertyCheck):
                    {"y_min": q(y0), "y_max": q(y0 + hh), "x_min": q(x0), "x_max": q(x0 + w), "scale": q(scale)},
                    "ops": rng.choice([["up"], ["nb"], ["up", "nb"], [{"idx": [0]}, "up"]])}
 
+    IDX_FORMS = ["int64", "int32", "list", "bool", "bool_list", "empty"]
+
+    def _idx_op(self, rng, n, form=None, kmax=None):
+        """an index-subset operation in one of the forms numpy fancy indexing accepts on axis 0:
+        integer ndarray (int64 / int32), Python list of ints, boolean mask (ndarray / list), empty."""
+        form = form or rng.choice(self.IDX_FORMS)
+        if form == "empty" or n == 0:
+            return {"idx": [], "form": "empty" if form in ("empty", "bool", "bool_list") else form}
+        k = rng.randint(1, max(1, min(n, kmax or n)))
+        if form in ("bool", "bool_list"):
+            return {"idx": sorted(rng.sample(range(n), k)), "form": form}
+        return {"idx": [rng.randrange(n) for _ in range(k)], "form": form}
+
     def _random_chain(self, rng, n):
         r = rng.random()
-        if r < 0.15:
+        if r < 0.12:
             return ["up"]
-        if r < 0.3:
+        if r < 0.24:
             return ["nb"]
-        if r < 0.4:
+        if r < 0.32:
             return ["up", "up"]
-        if r < 0.55:
+        if r < 0.44:
             return ["up", "nb"]
-        if r < 0.65:
+        if r < 0.52:
             return ["nb", "up"]
-        if r < 0.72:
+        if r < 0.58:
             return ["nb", "nb"]
-        sel = [rng.randrange(n) for _ in range(rng.randint(1, max(1, n)))]
-        if r < 0.8:
-            return [{"idx": sel}]
-        if r < 0.9:
-            return [{"idx": sel}, "up"]
-        m = 4 * n
-        return ["up", {"idx": [rng.randrange(m) for _ in range(rng.randint(1, 5))]}, "nb"]
+        if r < 0.72:
+            return [self._idx_op(rng, n)]
+        if r < 0.88:
+            return [self._idx_op(rng, n), rng.choice(["up", "nb"])]
+        return ["up", self._idx_op(rng, 4 * n, kmax=5), "nb"]
 
     def _coord_case(self, tag, coords, side, xo, yo, fl, ch):
         return {"tag": tag, "kind": "coord", "coords": coords, "side": q(side), "x_offset": q(xo),
@@ -381,22 +429,39 @@ class C20(PropertyCheck):
         from autoarray.structures.triangles.array import ArrayTriangles
         from autoarray.structures.triangles.coordinate_array import CoordinateArrayTriangles
 
-        fl = lambda s: float(F(s))
+        ints = case.get("int_scalars", False)
+
+        def fl(v):
+            fr = F(v)
+            return int(fr) if ints and fr.denominator == 1 else float(fr)
+
         if case["kind"] == "arr":
             if "limits" in case:
                 L = case["limits"]
                 return ArrayTriangles.for_limits_and_scale(
                     y_min=fl(L["y_min"]), y_max=fl(L["y_max"]), x_min=fl(L["x_min"]), x_max=fl(L["x_max"]),
                     scale=fl(L["scale"]))
-            return ArrayTriangles(indices=np.array(case["indices"], dtype=int),
-                                  vertices=np.array([[fl(a), fl(b)] for a, b in case["vertices"]]))
+            if "grid" in case:
+                g = case["grid"]
+                return ArrayTriangles.for_grid(grid=aa_mod.Grid2D.uniform(
+                    shape_native=tuple(g["shape"]), pixel_scales=float(F(g["ps"]))))
+            vform = case.get("vert_form", "float64")
+            if vform == "int64":
+                verts = np.array([[int(F(a)), int(F(b))] for a, b in case["vertices"]], dtype=np.int64)
+            else:
+                verts = np.array([[float(F(a)), float(F(b))] for a, b in case["vertices"]],
+                                 dtype=np.float32 if vform == "float32" else float)
+            idt = {"int32": np.int32}.get(case.get("index_dtype"), np.int64)
+            return ArrayTriangles(indices=np.array(case["indices"], dtype=idt).reshape(-1, 3),
+                                  vertices=verts.reshape(-1, 2))
         if "limits" in case:
             L = case["limits"]
             return CoordinateArrayTriangles.for_limits_and_scale(
                 x_min=fl(L["x_min"]), x_max=fl(L["x_max"]), y_min=fl(L["y_min"]), y_max=fl(L["y_max"]),
                 scale=fl(L["scale"]))
+        cdt = {"int32": np.int32, "float64": float}.get(case.get("coord_dtype"), np.int64)
         return CoordinateArrayTriangles(
-            coordinates=np.array(case["coords"], dtype=int), side_length=fl(case["side"]),
+            coordinates=np.array(case["coords"], dtype=cdt).reshape(-1, 2), side_length=fl(case["side"]),
             x_offset=fl(case["x_offset"]), y_offset=fl(case["y_offset"]), flipped=case["flipped"])
 
     @staticmethod
@@ -419,7 +484,17 @@ class C20(PropertyCheck):
             return obj.up_sample()
         if op == "nb":
             return obj.neighborhood()
-        return obj.for_indexes(np.array(op["idx"], dtype=int))
+        form = op.get("form", "int64")
+        idx = [int(i) for i in op["idx"]]
+        if form in ("bool", "bool_list"):
+            n = len(np.asarray(obj.triangles))
+            m = [i in set(idx) for i in range(n)]
+            return obj.for_indexes(np.array(m, dtype=bool) if form == "bool" else m)
+        if form == "list":
+            return obj.for_indexes(idx)
+        if form == "empty":
+            return obj.for_indexes([])
+        return obj.for_indexes(np.array(idx, dtype=np.int32 if form == "int32" else np.int64))
 
     @staticmethod
     def _obs_arr(a):
@@ -466,7 +541,12 @@ class C20(PropertyCheck):
                                   "area": q(float(arr.area)), "n": int(len(arr))}
         if "shape" in case:
             s = case["shape"]
-            fl = lambda v: float(F(v))
+            ints = case.get("int_scalars", False)
+
+            def fl(v):
+                fr = F(v)
+                return int(fr) if ints and fr.denominator == 1 else float(fr)
+
             if s["kind"] == "point":
                 shp = sh.Point(x=fl(s["x"]), y=fl(s["y"]))
             elif s["kind"] == "circle":
@@ -474,7 +554,7 @@ class C20(PropertyCheck):
             elif s["kind"] == "square":
                 shp = sh.Square(top=fl(s["top"]), bottom=fl(s["bottom"]), left=fl(s["left"]), right=fl(s["right"]))
             else:
-                shp = sh.Polygon(vertices=[(fl(a), fl(b)) for a, b in s["vertices"]])
+                shp = sh.Polygon(vertices=[[fl(a), fl(b)] if ints else (fl(a), fl(b)) for a, b in s["vertices"]])
             obs["containing"] = [int(i) for i in np.asarray(obj.containing_indices(shp))]
             obs["ref"] = [q(float(shp.x)), q(float(shp.y))]
         return obs
